@@ -673,7 +673,7 @@ func (g *gen) faults(n int) {
 		if g.r.Intn(3) == 0 {
 			a, b = g.r.Intn(256), g.r.Intn(256)
 		}
-		switch g.r.Intn(25) {
+		switch g.r.Intn(27) {
 		case 0:
 			g.add("refused", "refuse", td, tt, -1, false)
 		case 1:
@@ -718,6 +718,10 @@ func (g *gen) faults(n int) {
 			g.add("nonpositive-data-timeout", "accept", td, -g.r.Intn(2)*g.r.Intn(50), -1, g.r.Bool(), send(0, 5, 0))
 		case 21: // negative dial timeout: expired before dialling
 			g.add("negative-dial-timeout", "accept", -1-g.r.Intn(50), tt, -1, true, send(0, 5, 0))
+		case 25: // data timeout <= 0 and a peer that accepts and stays silent: every deadline has already expired
+			g.add("nonpositive-data-timeout-stall", "accept", td, -g.r.Intn(2)*g.r.Intn(50), -1, g.r.Bool())
+		case 26: // ... or sends one byte and stays silent
+			g.add("nonpositive-data-timeout-stall", "accept", td, -g.r.Intn(2)*g.r.Intn(50), -1, g.r.Bool(), send(0, a))
 		case 22, 23: // a complete reply, then one byte per fraction of the data timeout, for ever (tarpit, chargen)
 			rep := [][]int{{72, 84}, {4, 0}, {5, 255}, {5, 2}, {5, 0}, {a, b}}[g.r.Intn(6)]
 			g.add("trickle-after-reply", "accept", td, tt, -1, g.r.Bool(), send(g.r.Intn(tt/3), rep...),
@@ -746,6 +750,7 @@ func main() {
 	concMS := flag.Int("conc-ms", 2500, "concurrent stage: at most this long")
 	concG := flag.Int("conc-g", 64, "concurrent stage: goroutines")
 	concOnly := flag.Bool("conc-only", false, "run ONLY the concurrent stage")
+	vanish := flag.Bool("vanish", false, "run ONLY the peer-vanishes-after-the-handshake stage (own network namespace, needs root)")
 	replay := flag.String("replay", "", "JSON file with a list of cases to run again (inputs are taken, observations overwritten)")
 	flag.Parse()
 
@@ -756,6 +761,14 @@ func main() {
 		w := hlib.NewOut(*out)
 		w.Put(row)
 		w.Close()
+		return
+	}
+	if *vanish {
+		if os.Getenv(vanishChildEnv) != "" {
+			vanishChild(*out)
+		} else {
+			vanishParent(*out)
+		}
 		return
 	}
 	if *concOnly {
@@ -811,6 +824,8 @@ func main() {
 					g.add("e2e:one-byte-stall", "accept", 0, 250+50*k, -1, true, send(5, 5)),
 					g.add("e2e:never-accepts", "blackhole", 0, 250+50*k, -1, false),
 					g.add("e2e:refused", "refuse", 0, 250, -1, false),
+					g.add("e2e:zero-timeout-stall", "accept", 0, 0, -1, true),
+					g.add("e2e:zero-timeout-one-byte-stall", "accept", 0, 0, -1, true, send(0, 5)),
 				} {
 					c.E2E = *e2e
 				}
